@@ -448,6 +448,41 @@ impl Prop for IndexOnly {
                 }
             }
         }
+        // the complete reader (shape + attribute row) follows the index too: assembled around a fresh ShapeReader, and
+        // around one that already delivered its first shape (it then continues with entry 1 or starts over)
+        if n >= 1 && n <= 64 {
+            use shapefile::dbase;
+            let dbf = dbf_with_rows(n);
+            for used in [false, true] {
+                let mut sr = open_mem(&enc.shp, Some(&enc.shx)).map_err(|e| Fail::new("open-error", err_str(&e)))?;
+                if used {
+                    match sr.iter_shapes().next() {
+                        Some(Ok(s)) => ensure!(view_shape(&s) == seq[0], "wrong-record", "first item on a second reader differs"),
+                        other => fail!("valid-record-rejected", "first item on a second reader: {:?}", other.map(|r| r.map(|_| ()).map_err(|e| err_str(&e)))),
+                    }
+                }
+                let dr = dbase::Reader::new(std::io::Cursor::new(dbf.clone())).map_err(|e| Fail::new("open-error", format!("dbf: {:?}", e)))?;
+                let mut cr = shapefile::Reader::new(sr, dr);
+                let (items, over) = drain_capped(cr.iter_shapes_and_records(), n + 2);
+                ensure!(!over, "too-many-items", "Reader::new(..).iter_shapes_and_records yields more than {} items", n);
+                let mut got = Vec::new();
+                for (i, it) in items.iter().enumerate() {
+                    match it {
+                        Ok((s, _)) => got.push(view_shape(s)),
+                        Err(e) => fail!("valid-record-rejected", "Reader::new(shape reader{}, dbf): item {}: {}", if used { " that delivered one shape" } else { "" }, i, err_str(e)),
+                    }
+                }
+                let all = got == seq;
+                let rest = used && got[..] == seq[1..];
+                ensure!(
+                    all || rest,
+                    "wrong-record",
+                    "Reader::new(shape reader{}, dbf) yields {} shapes that are neither the index entries 0.. nor 1.. in order",
+                    if used { " that delivered one shape" } else { "" },
+                    got.len()
+                );
+            }
+        }
         // iteration after random access (the last one was at index 0) still follows the index
         let (items, over) = drain_capped(r.iter_shapes(), n + 2);
         ensure!(!over && items.len() == n, "count", "iteration after random access yields {} items for {} index entries", items.len(), n);
